@@ -14,6 +14,7 @@ import (
 	"github.com/go-kid/ioc/container"
 	"github.com/go-kid/ioc/container/processors"
 	"github.com/go-kid/ioc/container/support"
+	"gopkg.in/yaml.v3"
 	"pgregory.net/rapid"
 	"verif/harness/kit"
 	"verif/harness/zoo"
@@ -487,5 +488,98 @@ func TestEndToEndPropEmptyKey(t *testing.T) {
 			t.Fatalf("C19: prop:%q has no required=false and nothing is configured, yet start-up succeeded", tag)
 		}
 		kit.Rec.Case("prop-empty-key "+tag, true, "e2e-prop-empty-key")
+	})
+}
+
+// ---- configured data is data, never tag text -------------------------------------
+
+type argSpy struct {
+	processors.DefaultInstantiationAwareComponentPostProcessor
+	args     map[string][]string
+	required bool
+	seen     bool
+}
+
+func (a *argSpy) PostProcessAfterInstantiation(c any, name string) (bool, error) { return true, nil }
+
+func (a *argSpy) PostProcessProperties(props []*component_definition.Property, c any, name string) ([]*component_definition.Property, error) {
+	for _, p := range props {
+		if p.Field.StructField.Name == "F" {
+			a.seen = true
+			a.args = map[string][]string{}
+			p.Args().ForEach(func(t component_definition.ArgType, items []string) {
+				a.args[string(t)] = append([]string(nil), items...)
+			})
+			a.required = p.IsRequired()
+		}
+	}
+	return nil, nil
+}
+
+var dataTexts = []string{"hello, world", "a.example.com,b.example.com", "host=db1,Port=5432,Sslmode=disable", ",required=false", "x,required=false", "x,Required=false", "k=v", "plain", "a b", "trailing,", "q,qualifier=z", "1,2"}
+
+// TestEndToEndDataIsNotTagText: the arguments and the required status of a point are those written in its tag;
+// the text a placeholder resolves to - whatever commas, equals signs or "required=false" it contains - is bound in full.
+func TestEndToEndDataIsNotTagText(t *testing.T) {
+	kit.Rec.Rule(rule)
+	rapid.Check(t, func(t *rapid.T) {
+		ts := genTag(t)
+		var args []argSpec
+		for _, a := range ts.Args {
+			if c := canon(a.Name); c != "Validate" && c != "Mapper" && c != "TimeLayout" {
+				args = append(args, a)
+			}
+		}
+		ts.Args = args
+		text := rapid.SampledFrom(dataTexts).Draw(t, "text")
+		tagKey := rapid.SampledFrom([]string{"value", "prop", "value-default"}).Draw(t, "form")
+		switch tagKey {
+		case "value":
+			ts.Value = "${c19.text}"
+		case "prop":
+			ts.Value = "c19.text"
+		default:
+			tagKey = "value"
+			ts.Value = "pre-${c19.text}-${c19.absent:dflt}"
+		}
+		tag := ts.render()
+		want := text
+		if strings.HasPrefix(ts.Value, "pre-") {
+			want = "pre-" + text + "-dflt"
+		}
+		typ := reflect.StructOf([]reflect.StructField{{Name: "F", Type: reflect.TypeOf(""), Tag: quoteTag(tagKey, tag)}})
+		obj := reflect.New(typ)
+		doc, _ := yaml.Marshal(map[string]any{"c19": map[string]any{"text": text, "other": 1}})
+		spy := &argSpy{}
+		out := kit.RunApp(app.SetComponents(obj.Interface(), spy), app.SetConfigLoader(loader.NewRawLoader(doc)))
+		if !out.OK() {
+			t.Fatalf("C19: %s:%q with c19.text=%q failed: %v", tagKey, tag, text, out)
+		}
+		if got := obj.Elem().Field(0).String(); got != want {
+			t.Fatalf("C19: %s:%q with c19.text=%q bound %q, want %q (configured text is data: it is not split at commas)", tagKey, tag, text, got, want)
+		}
+		if !spy.seen {
+			t.Fatalf("HARNESS: the observing post-processor did not see the point")
+		}
+		exp := ts.expected()
+		if _, stated := exp["Required"]; !stated && len(spy.args["Required"]) == 0 {
+			delete(spy.args, "Required") // the scanner marks points without a required argument as required (no items): not an argument of the tag
+		}
+		if len(exp) != len(spy.args) {
+			t.Fatalf("C19: %s:%q with c19.text=%q: after processing the point carries arguments %v, its tag states %v", tagKey, tag, text, spy.args, exp)
+		}
+		for name, items := range exp {
+			got, ok := spy.args[name]
+			if !ok {
+				got, ok = spy.args[swapFirst(name)]
+			}
+			if !ok || !reflect.DeepEqual(got, items) {
+				t.Fatalf("C19: %s:%q with c19.text=%q: argument %q is %q after processing, the tag states %q (all: %v)", tagKey, tag, text, name, got, items, spy.args)
+			}
+		}
+		if spy.required == ts.optional() {
+			t.Fatalf("C19: %s:%q with c19.text=%q: IsRequired()=%v after processing, explicit required=false in the tag: %v", tagKey, tag, text, spy.required, ts.optional())
+		}
+		kit.Rec.Case(fmt.Sprintf("data %s:%q text=%q", tagKey, tag, text), strings.ContainsAny(text, ",="), "e2e-data-not-tag-text")
 	})
 }
